@@ -107,6 +107,13 @@ deriving Repr
 
 abbrev RankFn := List Card → List Card → Except Err (List Nat)
 
+/-- everything a step reads besides the game's own state: the process-global `Action` sets, the float
+rounding of the rake arithmetic, and the hand evaluator -/
+structure Env where
+  w : World
+  fl : Rat → Rat
+  rankFn : RankFn
+
 def showdownStreet : Nat := 4
 
 /-! ## `is_action_closed` -/
@@ -325,10 +332,10 @@ def State.orderHands (rankFn : RankFn) (s : State) (players : List Nat) : Except
 def addQ (a b : List Rat) : List Rat := (a.zip b).map fun (x, y) => x + y
 
 /-- `get_payouts_and_rake` -/
-def State.getPayoutsAndRake (rankFn : RankFn) (s : State) : Except Err (List Rat × List Rat) := do
+def State.getPayoutsAndRake (env : Env) (s : State) : Except Err (List Rat × List Rat) := do
   let atShowdown := (List.range s.n).filter fun p => (s.lastActions[p]?).join != some .fold
   if atShowdown.length < 2 then
-    let (pay, rake) ← Pot.settleShowdown Float53.rnd s.rake s.pot [atShowdown] s.shouldRakePot
+    let (pay, rake) ← Pot.settleShowdown env.fl s.rake s.pot [atShowdown] s.shouldRakePot
     .ok (pay, rake.map fun (r : Int) => (r : Rat))
   else
     let cardsRemaining := 5 - s.board.length
@@ -337,13 +344,13 @@ def State.getPayoutsAndRake (rankFn : RankFn) (s : State) : Except Err (List Rat
     (List.range numRunouts).foldlM (fun (acc : List Rat × List Rat) i => do
       let runout ← s.sampler.sample s.deck cardsRemaining i
       let s' := { s with board := s.board ++ runout }
-      let winners ← s'.orderHands rankFn atShowdown
-      let (pay, rake) ← Pot.settleShowdown Float53.rnd s.rake s.pot winners s'.shouldRakePot
+      let winners ← s'.orderHands env.rankFn atShowdown
+      let (pay, rake) ← Pot.settleShowdown env.fl s.rake s.pot winners s'.shouldRakePot
       pure (addQ acc.1 (pay.map (· / (numRunouts : Rat))),
             addQ acc.2 (rake.map fun (r : Int) => (r : Rat) / (numRunouts : Rat)))) (zero, zero)
 
 /-- `advance_action` -/
-def State.advanceAction (rankFn : RankFn) (s : State) : Except Err State := do
+def State.advanceAction (env : Env) (s : State) : Except Err State := do
   let closed ← s.isActionClosed
   let s ← if !closed then s.moveAction else
     let rec streets (fuel : Nat) (s : State) : Except Err State :=
@@ -356,15 +363,15 @@ def State.advanceAction (rankFn : RankFn) (s : State) : Except Err State := do
         else .ok s
     streets 6 s
   if s.street ≥ showdownStreet then
-    let (pay, rake) ← s.getPayoutsAndRake rankFn
+    let (pay, rake) ← s.getPayoutsAndRake env
     .ok { s with payouts := some pay, rakePaid := some rake, complete := true }
   else .ok s
 
 /-- `act(player, action, amount)` -/
-def State.act (w : World) (rankFn : RankFn) (s : State) (player : Int) (ty : Option ActType)
+def State.act (env : Env) (s : State) (player : Int) (ty : Option ActType)
     (amount : Option Int) : Except Err State := do
-  let s ← s.appendAction w player ty amount
-  s.advanceAction rankFn
+  let s ← s.appendAction env.w player ty amount
+  s.advanceAction env
 
 /-! ## construction, replay, resume -/
 
@@ -418,7 +425,7 @@ structure Op where
 deriving Repr
 
 /-- `reset_state_from_action_dicts` -/
-def State.resetFromActionDicts (w : World) (rankFn : RankFn) (s : State) (ops : List Op) : Except Err State := do
+def State.resetFromActionDicts (env : Env) (s : State) (ops : List Op) : Except Err State := do
   let s := { s with stacks := s.startingStacks, pot := s.startingStacks.map fun _ => 0,
                     lastActions := s.startingStacks.map fun _ => none, payouts := none, rakePaid := none,
                     log := [], complete := false, street := 0 }
@@ -426,12 +433,12 @@ def State.resetFromActionDicts (w : World) (rankFn : RankFn) (s : State) (ops : 
   let s ← s.extractBlinds
   let a ← s.getStartingAction
   let s := { s with action := some a }
-  ops.foldlM (fun s o => s.act w rankFn o.player o.ty o.amount) s
+  ops.foldlM (fun s o => s.act env o.player o.ty o.amount) s
 
 /-- `from_action_dicts` -/
-def fromActionDicts (w : World) (rankFn : RankFn) (cfg : Cfg) (ops : List Op) : Except Err State := do
+def fromActionDicts (env : Env) (cfg : Cfg) (ops : List Op) : Except Err State := do
   let s ← construct cfg
-  s.resetFromActionDicts w rankFn ops
+  s.resetFromActionDicts env ops
 
 /-- `player_pnl` -/
 def State.pnl (s : State) (p : Nat) : Rat :=
